@@ -5,6 +5,7 @@
 # 2. applies it to /repo, runs the check, and undoes it (with TRYSEED_SCRATCH=1: runs the
 #    check against the scratch worktree through ./check's VERIF_REPO override instead).
 export GOFLAGS=-mod=mod GOPROXY=off GOSUMDB=off GOTOOLCHAIN=local
+root="$(dirname "$(realpath "$0")")/.."
 dir="$(realpath "$1")"; id="$2"; tier="${3:-quick}"
 pkg="$(cat "$dir/demo_pkg.txt" 2>/dev/null | tr -d ' \n')"; [ -z "$pkg" ] && pkg="."
 wt="$(mktemp -d /tmp/tryseed.XXXXXX)"
@@ -20,7 +21,7 @@ if go test -vet=off -count=1 -run 'TestDemo' "./$pkg" >"$wt.err" 2>&1; then echo
 git apply -R "$dir/patch.diff"
 if ! go test -vet=off -count=1 -run 'TestDemo' "./$pkg" >"$wt.err" 2>&1; then echo "SEED-INVALID: demo fails WITHOUT the change"; tail -5 "$wt.err"; exit 3; fi
 echo "SEED-VALID: builds, suite passes, demo fails with / passes without the change"
-cd /verif
+cd "$root"
 start=$(date +%s)
 if [ -n "$TRYSEED_SCRATCH" ]; then
   # while background runs use /repo: check against the scratch worktree
